@@ -25,3 +25,66 @@ func ghost_buffered[T any](t *T) bool { panic("ghost") }
 //@ func (*MPSC).Size : C05
 //@   assumed C16 is not applicable
 //@   ensures [size-nonneg] result >= 0
+
+// ---------------------------------------------------------------------------------------------
+// Bounded stand-in for the sequential content of A-buffer (NOT a proof, and nothing about interleavings - C16 stays
+// not applicable): the real MPSC code is executed symbolically (`bodies`) for the smallest geometry
+// (initial capacity 2, maximum capacity 4, so the queue grows once by linking a larger chunk) on one producer:
+// five pushes of distinct events, then six pops. Expected: the first four pushes are accepted, the fifth is refused
+// (the buffer holds its maximum number of events), the pops return the accepted events in push order, each once,
+// and then nothing.
+// ---------------------------------------------------------------------------------------------
+
+func bFifo[T any](a, b, c, d, e *T) (p1, p2, p3, p4, p5 bool, r1, r2, r3, r4, r5, r6 *T, sz0, sz4 uint64) {
+	q := NewMPSC[T](2, 4)
+	sz0 = q.Size()
+	p1 = q.TryPush(a)
+	p2 = q.TryPush(b)
+	p3 = q.TryPush(c)
+	p4 = q.TryPush(d)
+	p5 = q.TryPush(e)
+	sz4 = q.Size()
+	r1 = q.TryPop()
+	r2 = q.TryPop()
+	r3 = q.TryPop()
+	r4 = q.TryPop()
+	r5 = q.TryPop()
+	r6 = q.TryPop()
+	return
+}
+
+//@ func bFifo : C05 C06
+//@   bounded one producer, capacity 2 growing to 4 (one chunk link): five pushes then six pops
+//@   bodies
+//@   requires a != nil && b != nil && c != nil && d != nil && e != nil
+//@   requires a != b && a != c && a != d && a != e && b != c && b != d && b != e && c != d && c != e && d != e
+//@   modifies *
+//@   ensures [bounded:refused-only-when-full] p1 && p2 && p3 && p4 && !p5 && sz0 == 0 && sz4 == 4
+//@   ensures [bounded:each-event-once-in-push-order-across-the-chunk-link] r1 == a && r2 == b && r3 == c && r4 == d && r5 == nil && r6 == nil
+
+// the same geometry with the consumer in between: the indices wrap around the first chunk and cross the link
+func bFifoInterleaved[T any](a, b, c, d, e, f *T) (p1, p2, p3, p4, p5, p6 bool, r1, r2, r3, r4, r5, r6 *T) {
+	q := NewMPSC[T](2, 4)
+	p1 = q.TryPush(a)
+	p2 = q.TryPush(b)
+	r1 = q.TryPop()
+	p3 = q.TryPush(c)
+	p4 = q.TryPush(d)
+	p5 = q.TryPush(e)
+	p6 = q.TryPush(f)
+	r2 = q.TryPop()
+	r3 = q.TryPop()
+	r4 = q.TryPop()
+	r5 = q.TryPop()
+	r6 = q.TryPop()
+	return
+}
+
+//@ func bFifoInterleaved : C05 C06
+//@   bounded one producer and the consumer alternating, capacity 2 growing to 4: two pushes, one pop, four pushes, five pops
+//@   bodies
+//@   requires a != nil && b != nil && c != nil && d != nil && e != nil && f != nil
+//@   requires a != b && a != c && a != d && a != e && a != f && b != c && b != d && b != e && b != f && c != d && c != e && c != f && d != e && d != f && e != f
+//@   modifies *
+//@   ensures [bounded:refused-only-when-full] p1 && p2 && p3 && p4 && p5 && !p6
+//@   ensures [bounded:each-event-once-in-push-order-across-the-chunk-link] r1 == a && r2 == b && r3 == c && r4 == d && r5 == e && r6 == nil
